@@ -97,12 +97,23 @@ class C02(Oracle):
         self.spec = ctx.sc["partition"]
         self.cls = self.spec["cls"]
         self.checked = 0
+        self.pre_box = None
+        self.boxes = {}     # id(node) -> box recorded when the cell was created: a cell's box never changes
+
+    def on_mc_pre(self, ps, psn, parent, newlayer):
+        # the parent's box as it is *before* the split (a split must not alter it)
+        self.pre_box = _box(parent)
 
     def on_mc_post(self, ps, psn, parent, created, newlayer):
         if psn is None:
             return
         ctx = self.ctx
-        pbox = _box(parent)
+        pbox = self.pre_box if self.pre_box is not None else _box(parent)
+        if _box(parent) != pbox:
+            ctx.fail("C02", "box-mutated", "%s: splitting cell %s changed the cell's own box from %r to %r" % (
+                self.cls, psn.name(), pbox, _box(parent)))
+        for c in created:
+            self.boxes[id(c.node)] = _box(c.node)
         d = len(pbox)
         ar = ARITY[self.cls](self.spec, d)
         if len(created) != ar:
@@ -166,9 +177,16 @@ class C02(Oracle):
         for ps in ctx.parts:
             if ps.root is None:
                 continue
+            for s in ps.order:
+                b0 = self.boxes.get(id(s.node))
+                if b0 is not None and _box(s.node) != b0:
+                    ctx.fail("C02", "box-mutated", "%s: the box of cell %s changed after it was created" % (self.cls, s.name()))
             # the leaves of the tree as the library reports it (reachable from the root)
             leaves = [n for n in ctx.reachable(ps) if not n.get_children()]
-            rbox = _box(ps.root.node)
+            # ... must tile the box the user passed in (not whatever the root cell claims now)
+            rbox = [tuple(x) for x in ctx.domain_copy] if ps.owner is None or True else _box(ps.root.node)
+            if _box(ps.root.node) != rbox:
+                ctx.fail("C02", "box-mutated", "%s: the root cell's box is now %r, the domain is %r" % (self.cls, _box(ps.root.node), rbox))
             if len(leaves) <= self.MAX_GRID_LEAVES:
                 boxes = [_box(n) for n in leaves]
                 npts = 1
